@@ -59,8 +59,10 @@ type replayFile struct {
 	Trace        []string        `json:"trace,omitempty"`
 }
 
-var sqlKeywords = map[string]bool{"as": true, "by": true, "if": true, "in": true, "is": true, "no": true, "of": true, "on": true, "or": true, "to": true,
-	"add": true, "all": true, "and": true, "asc": true, "end": true, "for": true, "key": true, "not": true, "row": true, "set": true, "do": true}
+var pragmaCols = map[string]bool{"cid": true, "name": true, "type": true, "notnull": true, "dflt_value": true, "pk": true}
+
+// column and table names that are SQL keywords are legal (quoted) in a GeoPackage
+var sqlKeywords = []string{"order", "group", "select", "table", "index", "else", "from", "where", "default", "check", "primary", "unique", "values", "key", "to", "as", "by", "in", "is", "not", "null", "on", "or", "and", "all", "add", "set", "row", "end", "case", "when", "then", "limit", "offset", "union", "join", "left", "exists", "between", "like", "desc", "asc"}
 
 func ident(r *simrt.RNG, used map[string]bool) string {
 	first := "abcdefghijklmnopqrstuvwxyz"
@@ -70,16 +72,25 @@ func ident(r *simrt.RNG, used map[string]bool) string {
 		rest += "ABCDEFGHIJKLMNOPQRSTUVWXYZ"
 	}
 	for {
+		if r.Chance(0.08) {
+			k := sqlKeywords[r.Intn(len(sqlKeywords))]
+			if !used[k] {
+				used[k] = true
+				return k
+			}
+		}
 		n := 1 + r.Intn(10)
 		b := []byte{first[r.Intn(len(first))]}
 		for i := 1; i < n; i++ {
 			b = append(b, rest[r.Intn(len(rest))])
 		}
 		s := string(b)
-		if len(s) < 4 {
-			s += "_c" // keep clear of SQL keywords
+		if len(s) < 2 {
+			s += "_c"
 		}
-		if sqlKeywords[strings.ToLower(s)] || used[strings.ToLower(s)] || strings.HasPrefix(strings.ToLower(s), "gpkg_") || strings.HasPrefix(strings.ToLower(s), "rtree_") || strings.HasPrefix(strings.ToLower(s), "sqlite_") {
+		// (cid, name, type, notnull, dflt_value, pk: go-spatial looks the primary key up with
+		// pragma_table_info(("<table>")), where such a table name resolves to a column)
+		if used[strings.ToLower(s)] || pragmaCols[strings.ToLower(s)] || strings.HasPrefix(strings.ToLower(s), "gpkg_") || strings.HasPrefix(strings.ToLower(s), "rtree_") || strings.HasPrefix(strings.ToLower(s), "sqlite_") {
 			continue
 		}
 		used[strings.ToLower(s)] = true // SQLite identifiers are case-insensitive
